@@ -210,11 +210,34 @@ def check_panic_sites(prop):
         f, fn, kind = k.split(' :: ')
         if _match_file(f, watched) and len(cur.get((f, fn, kind), [])) < b['count']:
             gone.append('%s (%d -> %d)' % (k, b['count'], len(cur.get((f, fn, kind), []))))
+    # A site that merely MOVED (private function renamed, expression extracted into a helper of the same file) or whose
+    # identifiers were renamed is not a new site: pair every fresh site with a site that vanished from the same file, of
+    # the same kind and the same shape (the snippet with every identifier erased), one to one.  What cannot be paired stays.
+    import re as _re
+    def _shape(t):
+        return _re.sub(r'[A-Za-z_][A-Za-z0-9_]*', 'I', t).replace(' ', '')
+    vanished = {}
+    for k, b in base.items():
+        f, fn, kind = k.split(' :: ')
+        have = [x['snippet'] for x in cur.get((f, fn, kind), [])]
+        for sn in b['snippets']:
+            if sn in have:
+                have.remove(sn)
+            else:
+                vanished.setdefault((f, kind, _shape(sn)), []).append(k)
+    kept_new, kept_broken, moved = [], [], []
+    for x, msg in zip(new_sites, broken):
+        key = (x['file'], x['kind'], _shape(x['snippet']))
+        if vanished.get(key):
+            moved.append('%s:%d `%s` (%s) in fn %s <- %s' % (x['file'], x['line'], x['snippet'][:60], x['kind'], x['fn'], vanished[key].pop()))
+        else:
+            kept_new.append(x); kept_broken.append(msg)
+    new_sites, broken = kept_new, kept_broken
     return {'obligations': len(fns), 'broken': broken,
             'summary': {'sites': len(sites), 'by_class': by_class, 'by_kind': by_kind, 'by_file': by_file,
                         'watched_files': watched, 'watched_functions_with_sites': len(fns),
                         'new_sites': [{'file': x['file'], 'line': x['line'], 'fn': x['fn'], 'kind': x['kind'], 'class': x['class'], 'snippet': x['snippet']} for x in new_sites],
-                        'sites_removed_since_baseline': gone, 'unparsed': inv.get('unparsed', []),
+                        'sites_removed_since_baseline': gone, 'sites_moved_or_renamed': moved, 'unparsed': inv.get('unparsed', []),
                         'baseline': os.path.relpath(BASELINE, ROOT)}}
 
 
